@@ -2,6 +2,7 @@ package vc
 
 import (
 	"fmt"
+	"os"
 	"go/constant"
 	"go/token"
 	"go/types"
@@ -422,6 +423,9 @@ func (e *Engine) execBlock(f *frame, b *ssa.BasicBlock, entry *State) {
 		return // unreachable
 	}
 	pcIn := e.X.Or(conds...)
+	if e.X.And(f.base, pcIn).IsFalse() {
+		return // unreachable in the caller's context
+	}
 	f.inPC[b] = pcIn
 	f.local = pcIn
 	e.pc = e.X.And(f.base, pcIn)
@@ -461,6 +465,9 @@ func (e *Engine) execBlock(f *frame, b *ssa.BasicBlock, entry *State) {
 		}
 		e.execInstr(f, ins)
 		if e.pc.IsFalse() {
+			if os.Getenv("GOVC_DEBUG") != "" {
+				fmt.Fprintf(os.Stderr, "block %d of %s cut after %s (%T)\n", b.Index, f.fn.Name(), ins, ins)
+			}
 			break
 		}
 	}
@@ -540,7 +547,13 @@ func (e *Engine) operand(f *frame, v ssa.Value) Val {
 	}
 	r, ok := f.vals[v]
 	if !ok {
-		bail("value %s (%T) not computed in %s", v.Name(), v, f.fn.Name())
+		extra := ""
+		if ins, ok := v.(ssa.Instruction); ok && ins.Block() != nil {
+			b := ins.Block()
+			_, ran := f.outSt[b]
+			extra = fmt.Sprintf(" [block %d ran=%v inPC=%v base=%v pc=%v]", b.Index, ran, f.inPC[b] != nil && !f.inPC[b].IsFalse(), !f.base.IsFalse(), !e.pc.IsFalse())
+		}
+		bail("value %s (%T) not computed in %s%s", v.Name(), v, f.fn.Name(), extra)
 	}
 	return r
 }
